@@ -665,7 +665,7 @@ class Fn:
 
     def is_logging(self, s):
         return (isinstance(s, ast.Expr) and isinstance(s.value, ast.Call) and isinstance(s.value.func, ast.Attribute)
-                and isinstance(s.value.func.value, ast.Name) and s.value.func.value.id == "_LOGGER")
+                and isinstance(s.value.func.value, ast.Name) and s.value.func.value.id in ("_LOGGER", "LOGGER"))
 
     def check_log_args(self, call):
         """a dropped logging call must not be able to raise or have effects: names, attributes, constants,
@@ -1352,6 +1352,14 @@ class Fn:
             raise Unsupported(f"{self.fs.qual}: unary {ast.unparse(node)[:40]}")
         if isinstance(node, ast.BinOp):
             return self.binop(node, env, L)
+        if isinstance(node, ast.BoolOp) and isinstance(node.op, ast.Or) and len(node.values) == 2:
+            sub1, sub2 = [], []
+            a, at = self.ex(node.values[0], env, sub1)
+            if at == opt(EXC) and not sub1:
+                b, bt = self.ex(node.values[1], env, sub2)
+                if bt == EXC and not sub2:
+                    # `exc or Error(...)`: an exception object is always truthy
+                    return f"(Option.getD {paren(a)} {paren(b)})", EXC
         if isinstance(node, ast.BoolOp):
             parts = []
             for v in node.values:
@@ -1450,6 +1458,24 @@ class Fn:
                 if isinstance(at, tuple) and at[0] == "opt":
                     return (f"{paren(a)}.isNone" if op is ast.Is else f"{paren(a)}.isSome"), BOOL
                 raise Unsupported(f"{self.fs.qual}: `is None` on {at}")
+            # identity with a member of an int enum: for members of one enum class identity is equality; the left operand must be
+            # a parameter annotated with that very class (callers hand over members, never bare ints)
+            if isinstance(right, ast.Attribute) and self.is_const_chain(right) and isinstance(left, ast.Name):
+                try:
+                    member = eval(ast.unparse(right), vars(self.tr.mod))  # noqa: S307
+                except Exception:
+                    member = None
+                ann = None
+                for x in list(self.node.args.args) + list(self.node.args.kwonlyargs):
+                    if x.arg == left.id and x.annotation is not None:
+                        ann = ast.unparse(x.annotation).strip("'\"")
+                if isinstance(member, enum.Enum) and isinstance(member, int) and ann is not None:
+                    try:
+                        ann_cls = eval(ann, vars(self.tr.mod))  # noqa: S307
+                    except Exception:
+                        ann_cls = None
+                    if ann_cls is type(member) and env.get(left.id) == NAT:
+                        return f"(decide ({ident(left.id)} {'=' if op is ast.Is else '≠'} {int(member)}))", BOOL
             raise Unsupported(f"{self.fs.qual}: `is` comparison {ast.unparse(node)[:60]}")
         if op in (ast.In, ast.NotIn):
             a, at = self.ex(left, env, L)
@@ -2085,7 +2111,164 @@ def ash_spec() -> ModSpec:
     )
 
 
-MODULES = {"Ash": ash_spec}
+# --------------------------------------------------------------------------- bellows/uart.py (Gateway, synchronous part)
+
+UART_STATE_DECL = """/-- an `asyncio.Future` of the gateway: heap cell -/
+inductive GFut
+  | pending
+  | result                                -- set_result(True)
+  | resultExc (e : Option ExcVal)         -- set_result(exc): the connection-done future carries the reason (or None)
+  | exc (e : ExcVal)                      -- set_exception(e)
+  | cancelled
+deriving Repr, DecidableEq
+
+def GFut.done : GFut → Bool
+  | .pending => false
+  | _ => true
+
+/-- calls the gateway makes on its environment, in program order -/
+inductive GEv
+  | appFrame (data : List UInt8)          -- self._application.frame_received(data)
+  | appEnterFailed (code : Nat)           -- self._application.enter_failed_state(code)
+  | appConnectionLost (exc : Option ExcVal)  -- self._application.connection_lost(exc)
+  | transportClose                        -- self._transport.close()
+  | transportSendReset                    -- self._transport.send_reset()
+deriving Repr, DecidableEq
+
+/-- the fields of `Gateway`; futures live in a heap because waiters hold them by reference -/
+structure Gateway where
+  reset_future : Option Nat := none
+  startup_reset_future : Option Nat := none
+  connected_future : Option Nat := none
+  connection_done_future : Option Nat := none
+  /-- `_transport`: None or an object -/
+  transport : Option Unit := some ()
+  futs : List GFut := []
+  trace : List GEv := []
+deriving Repr, DecidableEq
+
+def gemit (e : GEv) : PyM Gateway Unit := PyM.modify fun s => { s with trace := s.trace ++ [e] }
+
+/-- a call on `self._transport` (AttributeError when it is None) -/
+def gtransport (e : GEv) : PyM Gateway Unit := fun s =>
+  match s.transport with
+  | some _ => (.ok (), { s with trace := s.trace ++ [e] })
+  | none => (.error (.raised "AttributeError"), s)
+
+/-- `fut.done()` where `fut` came out of an attribute that may hold None -/
+def gfutDone : Option Nat → PyM Gateway Bool
+  | some id => fun s =>
+    match s.futs[id]? with
+    | some f => (.ok f.done, s)
+    | none => (.error (.unsupported "dangling future"), s)
+  | none => PyM.throw (.raised "AttributeError")
+
+/-- `fut.set_result(..)` / `fut.set_exception(..)`: InvalidStateError unless pending -/
+def gfutSet : Option Nat → GFut → PyM Gateway Unit
+  | some id, v => fun s =>
+    match s.futs[id]? with
+    | some .pending => (.ok (), { s with futs := s.futs.set id v })
+    | some _ => (.error (.raised "InvalidStateError"), s)
+    | none => (.error (.unsupported "dangling future"), s)
+  | none, _ => PyM.throw (.raised "AttributeError")
+"""
+
+
+def uart_spec() -> ModSpec:
+    FUT = ("ref", "GFut")
+
+    def tcall(ev):
+        def h(fn, node, env, L):
+            if node.args or node.keywords:
+                raise Unsupported("transport call with arguments")
+            L.append(f"gtransport .{ev}")
+            return "()", UNIT
+        return h
+
+    def app(evname, ty):
+        def h(fn, node, env, L):
+            if len(node.args) != 1 or node.keywords:
+                raise Unsupported("application call shape")
+            a, at = fn.ex(node.args[0], env, L)
+            a = fn.coerce(a, at, ty)
+            L.append(f"gemit (.{evname} {paren(a)})")
+            return "()", UNIT
+        return h
+
+    st = StateSpec(
+        pyclass="Gateway", lean="Gateway",
+        fields={
+            "_reset_future": ("reset_future", opt(FUT)),
+            "_startup_reset_future": ("startup_reset_future", opt(FUT)),
+            "_connected_future": ("connected_future", opt(FUT)),
+            "_connection_done_future": ("connection_done_future", opt(FUT)),
+            "_transport": ("transport", opt(("lean", "Unit"))),
+        },
+        calls={
+            "self._transport.close": tcall("transportClose"),
+            "self._transport.send_reset": tcall("transportSendReset"),
+            "self._application.frame_received": app("appFrame", BYTES),
+            "self._application.enter_failed_state": app("appEnterFailed", NAT),
+            "self._application.connection_lost": app("appConnectionLost", opt(EXC)),
+        },
+    )
+
+    def fut_done(fn, b, bt, args, L):
+        tmp = fn.tr.fresh("d")
+        L.append(f"let {tmp} ← gfutDone {paren(b)}")
+        return tmp, BOOL
+
+    def fut_set_result(fn, b, bt, args, L):
+        if len(args) != 1:
+            raise Unsupported("set_result arity")
+        a, at = args[0]
+        if a == "true" and at == BOOL:
+            L.append(f"gfutSet {paren(b)} .result")
+        elif at == opt(EXC):
+            L.append(f"gfutSet {paren(b)} (.resultExc {paren(a)})")
+        else:
+            raise Unsupported(f"set_result of {at}")
+        return "()", UNIT
+
+    def fut_set_exception(fn, b, bt, args, L):
+        if len(args) != 1 or args[0][1] != EXC:
+            raise Unsupported("set_exception of a non-exception")
+        L.append(f"gfutSet {paren(b)} (.exc {paren(args[0][0])})")
+        return "()", UNIT
+
+    def conn_reset(fn, node, env, L):
+        return "ExcVal.connectionReset"
+
+    fns = [
+        FnSpec("Gateway.close", ret=UNIT),
+        FnSpec("Gateway.connection_made", params={"transport": ("lean", "Unit")}, ret=UNIT),
+        FnSpec("Gateway.data_received", params={"data": BYTES}, ret=UNIT),
+        FnSpec("Gateway.reset_received", ret=UNIT),
+        FnSpec("Gateway.error_received", ret=UNIT),
+        FnSpec("Gateway._reset_cleanup", params={"future": FUT}, ret=UNIT),
+        FnSpec("Gateway.connection_lost", params={"exc": opt(EXC)}, ret=UNIT),
+        FnSpec("Gateway.eof_received", ret=UNIT),
+    ]
+    return ModSpec(
+        module="bellows.uart",
+        ns="BV.Src.Uart",
+        imports=["BV.Py.AshEnv"],
+        opens=["BV.Py"],
+        unions={},
+        fns=fns,
+        state=st,
+        exc_ctor={"ConnectionResetError": conn_reset},
+        value_methods={
+            ("opt:ref:GFut", "done"): fut_done,
+            ("opt:ref:GFut", "set_result"): fut_set_result,
+            ("opt:ref:GFut", "set_exception"): fut_set_exception,
+        },
+        enums=[],
+        state_decl=UART_STATE_DECL,
+    )
+
+
+MODULES = {"Ash": ash_spec, "Uart": uart_spec}
 
 
 def translate_module(spec: ModSpec):
